@@ -741,4 +741,46 @@ theorem expand_ok (t : Token W) (h : TokenOk t.kind) :
     subst he
     exact ⟨comboOk_mkPair l r hl hr hne, rfl⟩
 
+/-! ### the card and pair parsers never panic -/
+
+theorem parseRank_ne_panic (s : Bytes) : parseRank s ≠ .panic := by
+  unfold parseRank
+  split
+  · exact fun e => nomatch e
+  · split <;> exact fun e => nomatch e
+
+theorem parseSuit_ne_panic (s : Bytes) : parseSuit s ≠ .panic := by
+  unfold parseSuit
+  split
+  · exact fun e => nomatch e
+  · split <;> exact fun e => nomatch e
+
+theorem parseCard_ne_panic (v : Bytes) : parseCard v ≠ .panic := by
+  by_cases h : (v.length = 2 && isAscii v) = true
+  · simp only [Bool.and_eq_true, decide_eq_true_eq] at h
+    obtain ⟨hl, ha⟩ := h
+    match v, hl with
+    | [b₁, b₂], _ =>
+      simp only [isAscii, List.all_cons, List.all_nil, Bool.and_true, Bool.and_eq_true,
+        decide_eq_true_eq] at ha
+      exact (C13.two_char_ascii b₁ b₂ ha.1 ha.2).1
+  · unfold parseCard
+    rw [if_neg h]
+    exact fun e => nomatch e
+
+theorem pairOfRes_ne_panic (a b : Res Card) (ha : a ≠ .panic) (hb : b ≠ .panic) : pairOfRes a b ≠ .panic := by
+  cases a <;> cases b <;> simp_all [pairOfRes]
+
+theorem parsePair_ne_panic (v : Bytes) : parsePair v ≠ .panic := by
+  by_cases hl : v.length = 4
+  · by_cases ha : isAscii v = true
+    · match v, hl with
+      | [b₁, b₂, b₃, b₄], _ =>
+        simp only [isAscii, List.all_cons, List.all_nil, Bool.and_true, Bool.and_eq_true,
+          decide_eq_true_eq] at ha
+        rw [C14.parsePair_four b₁ b₂ b₃ b₄ ha.1 ha.2.1 ha.2.2.1 ha.2.2.2]
+        exact pairOfRes_ne_panic _ _ (parseCard_ne_panic _) (parseCard_ne_panic _)
+    · simp [parsePair, hl, ha]
+  · simp [parsePair, hl]
+
 end EspadaVerif.TokenFacts
